@@ -21,7 +21,8 @@ def nat_rules(levels, bits):
             (r"::read_natural::<", ("rank", 0), levels),   # unary prefix loop
             (r"::read_natural::<", ("rank", 1), levels),   # per-level loop
             (r"::read_natural::<", ("rank", 2), bits),     # per-bit loop
-            (r"encode_natural::<", "*", levels)]
+            (r"encode_natural::<", "*", levels),
+            (r"^c13::", "*", 70)]
 
 
 PROPS["C13"] = {
@@ -149,9 +150,9 @@ PROPS["C10"] = {
         H("k10_product_kernel_0_8", tiers=("thorough",), timeout=1200, mem_gb=16, unwindset=valk_rules()),
     ] + [H("k10_acc_%s" % a, tiers=(("quick", "thorough") if a in QUICK_ACC else ("thorough",)), timeout=1800, mem_gb=16,
            unwind=8, unwindset=valk_rules()) for a in ACC] + [
-        H("k10_pdec_sum_b_y", timeout=1800, mem_gb=24, unwind=8, unwindset=valk_rules()),
-        H("k10_pdec_prod_yy", tiers=("thorough",), timeout=1800, mem_gb=16, unwind=8, unwindset=valk_rules()),
-        H("k10_pdec_unit", tiers=("thorough",), timeout=900, unwind=8, unwindset=valk_rules()),
+        H("k10_pdec_sum_b_y", tiers=("thorough",), timeout=3600, mem_gb=40, core=False, unwind=8, unwindset=valk_rules()),
+        H("k10_pdec_prod_yy", tiers=("thorough",), timeout=3600, mem_gb=40, core=False, unwind=8, unwindset=valk_rules()),
+        H("k10_pdec_unit", tiers=("thorough",), timeout=900, core=False, unwind=8, unwindset=valk_rules()),
     ],
 }
 
@@ -213,13 +214,13 @@ PROPS["C18"] = {
     ],
 }
 
-def frame_rules(nat_bits=9):
+def frame_rules(nat_bits=4):
     return [BITITER_NEXT_REC, WRITE_BIT_REC,
             (r"BitWriter::<.*>::write_bits_be$", "*", nat_bits + 1),
-            (r"::read_natural::<", ("rank", 0), 5),
-            (r"::read_natural::<", ("rank", 1), 5),
+            (r"::read_natural::<", ("rank", 0), 4),
+            (r"::read_natural::<", ("rank", 1), 4),
             (r"::read_natural::<", ("rank", 2), nat_bits + 1),
-            (r"encode_natural::<", "*", 5),
+            (r"encode_natural::<", "*", 4),
             (r"encode::encode_hash", "*", 66),
             (r"BitIter::<.*>::read_(cmr|fail_entropy)$", "*", 66),
             (r"^(c01|hcons)::", "*", 66),
@@ -234,8 +235,8 @@ PROPS["C01"] = {
     "filters": ["k01_"],
     "functions": ["bit_encoding::encode::encode_node (private, via verif-hooks)", "bit_encoding::decode::decode_node (private, via verif-hooks)",
                   "encode_natural", "BitIter::read_natural", "encode_hash", "BitIter::{read_cmr, read_fail_entropy}"],
-    "bounds": "one node of each of the 16 combinator kinds + hidden, at a symbolic position index in [1,255] with symbolic child positions, symbolic fail entropy / hidden CMR / jet choice: encode_node then decode_node gives the same combinator, the same absolute child indices and payload and consumes exactly the written bits",
-    "outside": "whole programs (sharing, canonical order, type inference, witness attachment: the program-level encoder/decoder works on Arc/Vec/HashMap structures that CBMC cannot execute symbolically in reach - measured, see DESIGN.md); word nodes (Value machinery); the real jet families (their codes are C14's subject: a two-jet family stands in); positions above 255",
+    "bounds": "one node of each of the 16 combinator kinds + hidden, at a symbolic position index in [1,15] with symbolic child positions, symbolic fail entropy / hidden CMR / jet choice: encode_node then decode_node gives the same combinator, the same absolute child indices and payload and consumes exactly the written bits",
+    "outside": "whole programs (sharing, canonical order, type inference, witness attachment: the program-level encoder/decoder works on Arc/Vec/HashMap structures that CBMC cannot execute symbolically in reach - measured, see DESIGN.md); word nodes (Value machinery); the real jet families (their codes are C14's subject: a two-jet family stands in); positions above 15 (back references beyond 3-level naturals; the natural codec itself is C13's subject)",
     "assumptions": ["nodes are built with Node::from_parts for a harness-defined Marker (no cached data)", "CMR constructors stubbed by exact hash-consing (values abstract)"],
     "harnesses": [H("k01_frame_%s" % k, tiers=(("quick", "thorough") if k in QUICK_FRAMES else ("thorough",)), timeout=1800, mem_gb=12,
                     unwind=5, unwindset=frame_rules()) for k in FRAME_KINDS]
